@@ -323,3 +323,210 @@ def kf_d6b(seed=1):
            sleep(1 * SEC), peer("ack"), sleep(300000), peer("ack"), sleep(300000), peer("ack"),
            {"op": "drop", "ep": "a"}, sleep(15 * SEC)]
     return peer_script("kf_d6b/0", seed, st, opts=dict(link_mtu=576), lat=1000, rand=[10, 100], info={"family": "kf", "kf": "D6b"})
+
+# ------------------------------------------------------------------ closing / abort families (C03, C08, C17)
+def close_script(seed, idx, fam="close"):
+    rng = random.Random(seed * 1000003 + idx * 17 + 3)
+    link = rng.choice([576, 1500, 148])
+    rx = rng.choice([2048, 4096, 65536, 1 << 20])
+    wla = rng.random() < 0.7
+    opts_a = dict(link_mtu=link, wait_last_ack=wla, max_retx=rng.choice([2, 5]), inactivity_ms=rng.choice([3000, 10000]))
+    opts_b = dict(link_mtu=link, rx_buf=rx, wait_last_ack=rng.random() < 0.7, inactivity_ms=rng.choice([3000, 10000]))
+    lat = rng.choice([1000, 10000, 50000])
+    n = rng.choice([0, 1, 500, 5000, 40000])
+    st = connect_steps()
+    gen = isn_pair(rng)
+    # faults around the closing packets
+    fault = rng.choice(["none", "none", "drop_fin1", "drop_fin2", "drop_finack", "drop_all_fins", "cut_mid", "cut_after_flush",
+                        "peer_vanishes", "dup_fin", "reorder_fin", "cancel_a", "cancel_b"])
+    if fault == "drop_fin1":
+        st.append(rule(**{"type": "fin", "nth": 1, "act": "drop", "times": 1}))
+    elif fault == "drop_fin2":
+        st.append(rule(**{"type": "fin", "nth": 1, "act": "drop", "times": 2}))
+    elif fault == "drop_all_fins":
+        st.append(rule(**{"type": "fin", "act": "drop", "times": 0}))
+    elif fault == "dup_fin":
+        st.append(rule(**{"type": "fin", "act": "dup", "times": 2}))
+    elif fault == "reorder_fin":
+        st.append(rule(**{"type": "fin", "act": "delay", "delay_us": 3 * lat, "times": 1}))
+    reader = rng.choice(["greedy", "greedy", "late", "never", "drop_r"])
+    if reader == "greedy":
+        st.append({"op": "read", "ep": "b"})
+    elif reader == "drop_r":
+        st.append({"op": "drop_r", "ep": "b"})
+    st.append({"op": "read", "ep": "a"})
+    if n:
+        st.append({"op": "write", "ep": "a", "n": n})
+    if rng.random() < 0.3:
+        st.append({"op": "write", "ep": "b", "n": rng.choice([1, 3000])})
+    closer = rng.choice(["shutdown_a", "shutdown_a", "flush_then_shutdown", "drop_a", "drop_w_a", "drop_b", "both_drop", "shutdown_both"])
+    when = rng.choice([0, 0, lat, 5 * lat, 500000])
+    if when:
+        st.append(sleep(when))
+    if fault == "cut_mid":
+        st += [{"op": "net_set", "from": "A", "to": "B", "cut": True}, {"op": "net_set", "from": "B", "to": "A", "cut": True}]
+    if fault == "peer_vanishes":
+        st += [{"op": "net_set", "from": "B", "to": "A", "cut": True}]
+    if fault == "drop_finack":
+        st.append(rule(**{"from": "B", "type": "state", "act": "drop", "times": 3}))
+    if closer == "shutdown_a":
+        st.append({"op": "shutdown", "ep": "a"})
+    elif closer == "flush_then_shutdown":
+        st += [{"op": "flush", "ep": "a"}, {"op": "wait", "ep": "a", "what": "flush", "timeout_us": 40 * SEC}]
+        if fault == "cut_after_flush":
+            st += [{"op": "net_set", "from": "A", "to": "B", "cut": True}, {"op": "net_set", "from": "B", "to": "A", "cut": True}]
+        st.append({"op": "shutdown", "ep": "a"})
+    elif closer == "drop_a":
+        st.append({"op": "drop", "ep": "a"})
+    elif closer == "drop_w_a":
+        st.append({"op": "drop_w", "ep": "a"})
+    elif closer == "drop_b":
+        st.append({"op": "drop", "ep": "b"})
+    elif closer == "both_drop":
+        st += [{"op": "drop", "ep": "a"}, {"op": "drop", "ep": "b"}]
+    elif closer == "shutdown_both":
+        st += [{"op": "shutdown", "ep": "a"}, {"op": "shutdown", "ep": "b"}]
+    if fault == "cancel_a":
+        st += [sleep(rng.choice([0, lat, 300000])), {"op": "cancel", "sock": "A"}]
+    if fault == "cancel_b":
+        st += [sleep(rng.choice([0, lat, 300000])), {"op": "cancel", "sock": "B"}]
+    if reader == "late":
+        st += [sleep(rng.choice([100000, 2 * SEC, 6 * SEC])), {"op": "read", "ep": "b"}]
+    st += [{"op": "wait", "timeout_us": 45 * SEC},
+           {"op": "write", "ep": "a", "n": 10},      # later calls must fail cleanly, not hang
+           {"op": "flush", "ep": "a"},
+           {"op": "read", "ep": "b", "n": 1},
+           {"op": "wait", "timeout_us": 15 * SEC},
+           {"op": "drop", "ep": "a"}, {"op": "drop", "ep": "b"}, sleep(25 * SEC)]
+    socks = [sock("A", A_ADDR, rand=[gen(), gen()], **opts_a), sock("B", B_ADDR, rand=[gen(), gen()], **opts_b)]
+    return script(f"{fam}/{idx}", seed * 41 + idx, socks, st, net={"latency_us": lat},
+                  info={"family": fam, "fault": fault, "closer": closer, "reader": reader, "n": n})
+
+def kf_d5(seed=1):
+    """D5: the close handshake completes while acknowledged in-order data is still parked behind a full
+    user queue; the reader loses it although the writer's shutdown succeeded."""
+    st = connect_steps()
+    st += [{"op": "write", "ep": "a", "n": 4200},
+           {"op": "shutdown", "ep": "a"},
+           {"op": "wait", "ep": "a", "what": "shutdown", "timeout_us": 20 * SEC},
+           sleep(5 * SEC),
+           {"op": "read", "ep": "b"},
+           {"op": "wait", "ep": "b", "what": "read", "timeout_us": 20 * SEC},
+           {"op": "drop", "ep": "a"}, {"op": "drop", "ep": "b"}, sleep(15 * SEC)]
+    socks = [sock("A", A_ADDR, rand=[10, 100], link_mtu=148), sock("B", B_ADDR, rand=[20, 200], link_mtu=148, rx_buf=4096)]
+    return script("kf_d5/0", seed, socks, st, net={"latency_us": 10000}, info={"family": "kf", "kf": "D5"})
+
+# ------------------------------------------------------------------ D-many: socket level (C08, C12, C13)
+def backlog_from_source():
+    import re
+    try:
+        src = open("/repo/src/socket.rs").read()
+        m = re.search(r"const ACCEPT_QUEUE_MAX_SYNS: usize = (\d+);", src)
+        return int(m.group(1)) if m else 32
+    except OSError:
+        return 32
+
+def many_script(seed, idx, fam="many"):
+    rng = random.Random(seed * 1000003 + idx * 19 + 7)
+    limit = rng.choice([1, 2, 8, 128])
+    lat = rng.choice([1000, 10000])
+    # connection-id allocators: far apart, or (10%) adjacent so that ids of the two directions clash
+    clash = rng.random() < 0.1
+    ida = rng.choice([500, 65530, 2 * rng.randrange(100, 30000)])
+    idb = (ida - 1) % 65536 if clash else (ida + 20001) % 65536
+    socks = [sock("A", A_ADDR, rand=[ida] + [(1000 * (2 * i + 1)) % 65536 for i in range(40)], limit=limit, link_mtu=576),
+             sock("B", B_ADDR, rand=[idb] + [(1000 * (2 * i + 2)) % 65536 for i in range(40)], limit=limit, link_mtu=576)]
+    st = []
+    n = rng.choice([1, 2, 3, 6, 12])
+    order = rng.choice(["accept_first", "connect_first", "interleaved"])
+    both_dirs = rng.random() < 0.4
+    conns = []   # (connector sock, acceptor sock, connector ep, acceptor ep)
+    for i in range(n):
+        if both_dirs and i % 2 == 1:
+            conns.append(("B", "A", f"c{i}", f"s{i}"))
+        else:
+            conns.append(("A", "B", f"c{i}", f"s{i}"))
+    if rng.random() < 0.2:
+        st.append(rule(**{"type": "syn", "act": "dup", "times": rng.choice([1, 3])}))
+    usable = conns[:limit] if limit < n else conns
+    # at most 4 connects to one address may be pending at once (the implementation's slot limit): batches of 4
+    for g in range(0, len(conns), 4):
+        grp = conns[g:g + 4]
+        if order == "accept_first":
+            for (cs, ss, c, s) in grp:
+                st.append({"op": "accept", "sock": ss, "ep": s})
+            for (cs, ss, c, s) in grp:
+                st.append({"op": "connect", "sock": cs, "to": ss, "ep": c})
+        elif order == "connect_first":
+            for (cs, ss, c, s) in grp:
+                st.append({"op": "connect", "sock": cs, "to": ss, "ep": c})
+            st.append(sleep(rng.choice([0, 3 * lat])))
+            for (cs, ss, c, s) in grp:
+                st.append({"op": "accept", "sock": ss, "ep": s})
+        else:
+            for (cs, ss, c, s) in grp:
+                if rng.random() < 0.5:
+                    st += [{"op": "accept", "sock": ss, "ep": s}, {"op": "connect", "sock": cs, "to": ss, "ep": c}]
+                else:
+                    st += [{"op": "connect", "sock": cs, "to": ss, "ep": c}, {"op": "accept", "sock": ss, "ep": s}]
+        st.append({"op": "wait", "what": "connect", "timeout_us": 500000})
+        # the initiator speaks first (the accepting side gives up after its SYN-ACK repeats otherwise)
+        for j, (cs, ss, c, s) in enumerate(grp):
+            if (cs, ss, c, s) in usable:
+                st += [{"op": "read", "ep": s}, {"op": "read", "ep": c}, {"op": "write", "ep": c, "n": 100 + 37 * (g + j)}]
+        st.append({"op": "wait", "what": "accept", "timeout_us": 500000})
+    for j, (cs, ss, c, s) in enumerate(usable):
+        st.append({"op": "write", "ep": s, "n": 50 + 11 * j})
+    for (cs, ss, c, s) in usable:
+        st += [{"op": "flush", "ep": c}, {"op": "flush", "ep": s}]
+    st.append({"op": "wait", "what": "flush", "timeout_us": 20 * SEC})
+    closing = rng.choice(["shutdown", "drop", "mixed"])
+    for j, (cs, ss, c, s) in enumerate(usable):
+        if closing == "shutdown" or (closing == "mixed" and j % 2 == 0):
+            st.append({"op": "shutdown", "ep": c})
+        else:
+            st.append({"op": "drop", "ep": c})
+    st.append({"op": "wait", "what": "read", "timeout_us": 20 * SEC})
+    for (cs, ss, c, s) in conns:
+        st += [{"op": "abandon", "ep": c}, {"op": "abandon", "ep": s}]
+    for (cs, ss, c, s) in usable:
+        st += [{"op": "drop", "ep": c}, {"op": "drop", "ep": s}]
+    st.append(sleep(13 * SEC))
+    # second round: the slots must be reusable
+    k = min(limit, 4)
+    for i in range(k):
+        st += [{"op": "accept", "sock": "B", "ep": f"t{i}"}, {"op": "connect", "sock": "A", "to": "B", "ep": f"d{i}"}]
+    st += [{"op": "wait", "what": "connect", "timeout_us": 500000}]
+    for i in range(k):
+        st += [{"op": "read", "ep": f"t{i}"}, {"op": "write", "ep": f"d{i}", "n": 10 + i}, {"op": "shutdown", "ep": f"d{i}"}]
+    st += [{"op": "wait", "what": "accept", "timeout_us": 500000}, {"op": "wait", "what": "read", "timeout_us": 20 * SEC}]
+    for i in range(k):
+        st += [{"op": "drop", "ep": f"t{i}"}, {"op": "drop", "ep": f"d{i}"}]
+    st.append(sleep(13 * SEC))
+    cls = "loss-free" if (limit >= n and not clash) else ""
+    return script(f"{fam}/{idx}", seed * 43 + idx, socks, st, net={"latency_us": lat},
+                  info={"family": fam, "class": cls, "limit": limit, "n": n, "order": order, "clash": clash,
+                        "backlog": backlog_from_source()},
+                  mute=["poll"])
+
+def backlog_script(seed, idx, fam="backlog"):
+    """More SYNs than the backlog holds, then accepts: FIFO order, bound, RESET for the excess."""
+    rng = random.Random(seed * 1000003 + idx * 23 + 1)
+    backlog = backlog_from_source()
+    nsyn = backlog + rng.choice([0, 1, 5])
+    socks = [sock("A", A_ADDR, rand=[500], link_mtu=576), sock("P", P_ADDR, raw=True)]
+    st = []
+    for i in range(nsyn):
+        st.append(peer("syn", cid=1000 + 2 * i, seq=100 + i, to="A"))
+        if rng.random() < 0.1:
+            st.append(peer("syn", cid=1000 + 2 * i, seq=100 + i, to="A"))   # duplicate SYN
+    st.append(sleep(5000))
+    na = rng.choice([1, 5, backlog])
+    for i in range(na):
+        st.append({"op": "accept", "sock": "A", "ep": f"s{i}"})
+    st += [{"op": "wait", "what": "accept", "timeout_us": 2 * SEC}, sleep(3 * SEC)]
+    for i in range(na):
+        st.append({"op": "drop", "ep": f"s{i}"})
+    st.append(sleep(14 * SEC))
+    return script(f"{fam}/{idx}", seed * 47 + idx, socks, st, net={"latency_us": 1000},
+                  info={"family": fam, "backlog": backlog, "nsyn": nsyn}, mute=["poll"])
